@@ -86,7 +86,7 @@ theorem countEntry_eq_of_ok (it : Item) (h : countOk it = true) :
       Item.visible, Item.size]
     by_cases he : cs.isEmpty = true
     · simp [he]
-    · simp only [he, if_false]
+    · simp only [he]
       rcases h with ho | hf
       · simp [ho]
       · cases o with
@@ -142,5 +142,64 @@ mutual
         · simp [hj]
       rw [hprev, hnext]
 end
+
+/-! ### own ids -/
+
+def idsFrom (pool : List Nat) (idx n : Nat) : List Nat := (List.range n).map (fun k => at' pool (idx + k))
+
+theorem idsFrom_add (pool : List Nat) (idx a b : Nat) :
+    idsFrom pool idx (a + b) = idsFrom pool idx a ++ idsFrom pool (idx + a) b := by
+  simp only [idsFrom, List.range_add, List.map_append, List.map_map]
+  congr 1
+  apply List.map_congr_left
+  intro k _
+  simp [Nat.add_assoc]
+
+theorem idsFrom_succ (pool : List Nat) (idx n : Nat) :
+    idsFrom pool idx (1 + n) = at' pool idx :: idsFrom pool (idx + 1) n := by
+  rw [idsFrom_add]
+  simp [idsFrom]
+
+mutual
+  theorem ids_item (pos : List Item → Nat → Nat) (cnt : Item → Option Int) (pool : List Nat)
+      (itemId parent : Nat) (prev next : Option Nat) (idx : Nat) :
+      (it : Item) → (emitItem pos cnt pool itemId parent prev next idx it).map (·.id) =
+        itemId :: idsFrom pool idx (sizeList it.children)
+    | .mk o cs => by
+      simp only [emitItem, List.map_cons, Item.children]
+      rw [ids_list pos cnt pool itemId idx cs.length cs 0 idx cs]
+  theorem ids_list (pos : List Item → Nat → Nat) (cnt : Item → Option Int) (pool : List Nat)
+      (parent firstIdx n : Nat) (sibs : List Item) (j idx : Nat) :
+      (rest : List Item) → (emitList pos cnt pool parent firstIdx n sibs j idx rest).map (·.id) =
+        idsFrom pool idx (sizeList rest)
+    | [] => by simp [emitList, sizeList, idsFrom]
+    | c :: rest => by
+      cases c with
+      | mk o cs =>
+        simp only [emitList, List.map_append, sizeList, Item.size]
+        rw [ids_item pos cnt pool _ parent _ _ (idx + 1) (.mk o cs),
+          ids_list pos cnt pool parent firstIdx n sibs (j + 1) _ rest]
+        simp only [Item.children]
+        rw [idsFrom_add, idsFrom_succ]
+end
+
+/-- the own ids of the written items are the reserved pool, in pre-order -/
+theorem ids_write (pos : List Item → Nat → Nat) (cnt : Item → Option Int) (r : Nat)
+    (pool : List Nat) (items : List Item) (hlen : pool.length = sizeList items) :
+    (writeTree pos cnt r pool items).2.map (·.id) = pool := by
+  unfold writeTree
+  by_cases he : items.isEmpty = true
+  · simp only [List.isEmpty_iff] at he
+    subst he
+    simp [sizeList] at hlen
+    simp [hlen]
+  · simp only [he, Bool.false_eq_true, if_false]
+    rw [ids_list]
+    simp only [idsFrom, ← hlen, at', Nat.zero_add]
+    apply List.ext_getElem
+    · simp
+    · intro i h1 h2
+      simp at h1
+      simp [List.getD_eq_getElem?_getD, h1]
 
 end OxiVerif.C28
